@@ -651,3 +651,67 @@ def run(ctx):
     r = _run_impl(ctx)
     t_chunk(ctx, load.program('core-full'))
     return r
+
+
+# ---------------------------------------------------------------------------
+# T-IMPL.eoi: built-in Decode impls over every strict prefix (at item granularity) of their own encoding
+
+def t_impl_eoi(ctx, prog):
+    from .. import l1, l2
+    from . import summaries
+    from .derive_rules import fmt_items
+    ctx.rules_run.append('T-IMPL.eoi: every built-in Decode impl over every strict prefix of its own encoding cut between items (collections with two concrete elements): '
+                         'every path is an error of the end-of-input class - never a value, never another class (cuts inside an item are the accessor tables, T-DEC.eoi)')
+    enc = dict((i['self_ty'], i) for i in prog.impls if i['trait'] == 'minicbor::encode::Encode' and i['krate'] == 'minicbor')
+    dec = dict((i['self_ty'], i) for i in prog.impls if i['trait'] == 'minicbor::decode::Decode' and i['krate'] == 'minicbor')
+    n = 0
+    for t in sorted(set(enc) & set(dec)):
+        e = summaries.summary(prog, enc[t]['trait_ref'] + '::encode', 'enc')
+        if e is None or e[0] == 'abort':
+            continue
+        where = mir.loc(dec[t]['sp'])
+        for eo in e[1]:
+            if eo.kind != 'return' or l1.result_kind(eo.value) != 'Ok':
+                continue
+            ev = expand_reps(eo.st.events)
+            if ev is None:
+                continue
+            base = '%s|%s' % (t, ','.join('%s=%s' % kv for kv in sorted(summaries.choices(eo.st).items())) or 'all')
+            fst = eo.st.clone()
+            for sy in list(fst.ranges):
+                if sy.startswith('const:'):
+                    fst.ranges[sy] = ((2, 2),)     # `[T; N]`: the two concrete elements of the expansion are the whole array
+            for k in range(len(ev)):
+                try:
+                    r = l2.run_decode(prog, dec[t]['trait_ref'] + '::decode', ev[:k], from_state=fst)
+                except Abort as ex:
+                    ctx.fail_closed('T-IMPL.eoi', '%s: decode cannot be interpreted on a prefix: %s' % (t, ex))
+                    break
+                n += 1
+                key = '%s|cut@%d' % (base, k)
+                bad = None
+                for o in r[1]:
+                    if o.kind != 'return':
+                        bad = 'a path does not return (%s)' % o.why
+                        break
+                    if l1.result_kind(o.value) == 'Ok':
+                        bad = 'a value is returned'
+                        break
+                    cls = l1.error_class(prog, o.value.fields[0]) if isinstance(o.value, Adt) and o.value.fields else '?'
+                    if cls != 'EndOfInput':
+                        bad = 'the error class is %s' % cls
+                        break
+                if bad:
+                    ctx.violation('T-IMPL.eoi', '%s|%s' % (base, bad.split(' (')[0]), 'decoding the strict prefix %s of the encoding %s: %s; expected the end-of-input error' % (fmt_items(ev[:k])[:100], fmt_items(ev)[:100], bad), where)
+                    break
+                ctx.ok('T-IMPL.eoi', key, nontrivial=(k > 0))
+    ctx.floor('T-IMPL.eoi', 'prefixes', n, 200)
+
+
+_run_chunk = run
+
+
+def run(ctx):
+    r = _run_chunk(ctx)
+    t_impl_eoi(ctx, load.program('core-full'))
+    return r
